@@ -342,7 +342,13 @@ func (b *backend) apply(o dop) string {
 			if o.ln == nil {
 				b.d.SetLanguage(nil)
 			} else {
-				b.d.SetLanguage(&lang.Language{Code: *o.ln, Name: "x"})
+				// the way an application gets its Language: from the ISO 639 table when the code resolves
+				// (the code it asked for is the code it gets), a literal otherwise
+				if l, err := lang.LanguageFromCode(*o.ln); err == nil && len(*o.ln) == 3 {
+					b.d.SetLanguage(&l)
+				} else {
+					b.d.SetLanguage(&lang.Language{Code: *o.ln, Name: "x"})
+				}
 			}
 		case "lock":
 			if err := b.d.SetLock(o.p, o.lk); err != nil {
@@ -526,7 +532,7 @@ var (
 	roTypes    = []uint8{db.DATATYPE_BIN, db.DATATYPE_MENU, db.DATATYPE_TEMPLATE, db.DATATYPE_STATICLOAD}
 	validKeys  = []string{"foo", "bar", "foobar", "root", "a1", "foo_menu", "ab", "x1y2", "main_1", "fo", "Ps", "P1", "b4r", "Pin", "at_root", "tmp", "alice", "s1", "foo.tmp"}
 	validSess  = []string{"", "alice", "bob", "s1", "+2547", "Pat", "s", "x"}
-	validLangs = []*string{nil, nil, sp("eng"), sp("nor"), sp("swa")}
+	validLangs = []*string{nil, nil, sp("eng"), sp("nor"), sp("swa"), sp("guz"), sp("luy")} // guz, luy: ISO 639-3 only
 	// application-defined data types: sessioned above STATICLOAD whatever their bits, language-typed when they
 	// carry one of the MENU/TEMPLATE/STATICLOAD bits
 	oddTypes = []uint8{9, 12, 33, 48, 64, 128, 192, 66}
@@ -851,6 +857,7 @@ func (rn *dbrunner) corpus() error {
 		{"corpus:context-language", cat(un, pfx(M), put("foo", "default"), dop{kind: "put", k: []byte("foo"), v: []byte("norsk"), cl: sp("nor")}, dop{kind: "put", k: []byte("foo"), v: []byte("kiswahili"), cl: sp("swa")},
 			dop{kind: "get", k: []byte("foo"), cl: sp("nor")}, dop{kind: "get", k: []byte("foo"), cl: sp("swa")}, get("foo"), put("foo", "default2"), dop{kind: "get", k: []byte("foo"), cl: sp("nor")}, get("foo"),
 			pfx(dbTemplate()), dop{kind: "get", k: []byte("foo"), cl: sp("nor")}, dop{kind: "put", k: []byte("bar"), v: []byte("t-nor"), cl: sp("nor")}, get("bar"), dop{kind: "get", k: []byte("bar"), cl: sp("eng")})},
+		{"corpus:iso639-3-only-language", cat(un, pfx(M), put("foo", "welcome"), lng("guz"), put("foo", "karibu-guz"), get("foo"), nolng, get("foo"), lng("mer"), get("foo"), put("foo", "mer"), nolng, get("foo"), lng("luy"), get("foo"), dump(""))},
 		{"corpus:connect-again", cat(un, pfx(U), sess("a"), put("k", "v1"), dop{kind: "reconnect"}, get("k"), pfx(S), put("k", "st"), dop{kind: "reconnect"}, get("k"), dump(""))},
 		{"corpus:staging-name", cat(un, pfx(U), sess("alice"), put("tmp", "alice's"), sess(""), put("alice", "nobody's"), sess("alice"), get("tmp"), dump(""), pfx(S), put("tmp", "st"), sess(""), put("alice", "x"), sess("alice"), get("tmp"),
 			pfx(B), sess(""), put("foo.tmp", "code1"), put("foo", "code2"), get("foo.tmp"), get("foo"))},
